@@ -658,7 +658,7 @@ func (obj *Hmm) GetParameters() Vector {
 func (obj *Hmm) SetParameters(parameters Vector) error {
   m := obj.M
   obj.Pi.Set(parameters.Slice(0, m)); parameters = parameters.Slice(m, parameters.Dim())
-  if obj.Tr == obj.Tf {
+  if obj.Tr.GetMatrix() == obj.Tf.GetMatrix() {
     obj.Tr.Set(parameters.Slice(0 ,m*m).AsMatrix(m,m)); parameters = parameters.Slice(m*m, parameters.Dim())
     obj.Tf = obj.Tr
   } else {
